@@ -39,9 +39,13 @@ def load_contracts():
 # ---------------------------------------------------------------------------
 def gen_worker(qual):
     from pyvc.executor import Executor
-    from pyvc import backend
+    from pyvc import backend, api
     import z3
     load_contracts()
+    inline_extra = ()
+    if isinstance(qual, tuple):
+        qual, inline_extra = qual
+        api.INLINE.update(inline_extra)      # (worker process only) escalation: helper bodies instead of contracts
     t0 = time.time()
     out = {'function': qual, 'obligations': [], 'canary': []}
     try:
@@ -253,6 +257,14 @@ def main(argv=None):
             side['standin'].kill()
             standin_error = 'stand-in timed out'
 
+    # --- escalation (DESIGN 3.1 / 10.4): a helper whose own contract is refuted -------------
+    # A helper's contract is an internal stepping stone, stronger than the property.  When it is
+    # refuted AND the refutation replays on the real helper, the CALLERS named in spec['helpers']
+    # are replayed natively under their own executable contracts (the witness lifted, then a
+    # bounded search): a caller input that fails is the violation; if none fails the refutation
+    # is internal contract drift (undecided; the bounded stand-in decides).  See handle_sat.
+    drift = {'helpers': spec.get('helpers') or {}, 'escalations': []}
+
     # --- verdicts -------------------------------------------------------------------------
     known = [k for k in load_known() if k.get('status', 'open') == 'open']
     lock = load_lock() or {}
@@ -268,6 +280,7 @@ def main(argv=None):
     clause_status = {}
     other_prop = [0]
     needs_q = set()
+    drift_notes = []
     locked_q = set(lock.get(prop, {}).get('needs_quantifiers', []))
     for g in gens:
         fstat = {'name': g['function'], 'status': None, 'obligations': len(g['obligations']),
@@ -321,7 +334,7 @@ def main(argv=None):
             elif st == 'sat':
                 all_ok = False
                 clause_status[ck] = False
-                handle_sat(prop, g, ob, ck, locked, known, violations, known_hits, undecided, tier)
+                handle_sat(prop, g, ob, ck, locked, known, violations, known_hits, undecided, tier, drift, drift_notes)
             elif st == 'conflict':
                 faults.append('back ends disagree on ' + ob['id'])
                 all_ok = False
@@ -449,6 +462,7 @@ def main(argv=None):
         'vacuity': {'canaries': {f['name']: f.get('canary') for f in functions_ev}},
         'known_findings_hit': [k.get('id') for k in known_hits],
         'clauses_of_other_properties_not_counted': other_prop[0],
+        'internal_contract_drift': {'escalations': drift['escalations'], 'notes': drift_notes[:10]},
         'cross_check': cross, 'samples': samples,
         'explanation': (('all obligations discharged' + ('' if claimed == 'proof' else
                          '; but the obligations cover only part of this property - the rest is decided by the '
@@ -478,6 +492,8 @@ def main(argv=None):
           % (prop, tier, n_dis, n_obl, len(undecided), len(violations), len(known_hits), wall))
     for u in undecided[:10]:
         print('  UNDECIDED', json.dumps(u)[:300])
+    for dn in drift_notes[:4]:
+        print('  DRIFT', dn[:300])
     seen = set()
     for k in known_hits:
         if k.get('id') in seen:
@@ -523,7 +539,7 @@ def write_replay(prop, oid, payload):
     return path
 
 
-def handle_sat(prop, g, ob, ck, locked, known, violations, known_hits, undecided, tier):
+def handle_sat(prop, g, ob, ck, locked, known, violations, known_hits, undecided, tier, drift, drift_notes):
     """A back end refuted an obligation: replay natively, search for a real
     failing input, classify (DESIGN 3.1)."""
     import contracts.props as P
@@ -575,6 +591,32 @@ def handle_sat(prop, g, ob, ck, locked, known, violations, known_hits, undecided
                     payload['native_search'] = r
             except Exception:
                 payload['native_search'] = {'error': (err or out)[-500:]}
+    callers = ((drift or {}).get('helpers') or {}).get(qual)
+    if confirmed is not None and callers:
+        # escalation: does any caller fail ITS executable contract?  (memoised per helper)
+        memo = drift.setdefault('_memo', {})
+        if qual not in memo:
+            memo[qual] = escalate_to_callers(qual, callers, confirmed, tier)
+            drift['escalations'].append(dict(memo[qual], helper=qual))
+        esc = memo[qual]
+        payload['native_replay'] = confirmed
+        payload['escalation'] = esc
+        if esc.get('caller_fails'):
+            cf = esc['caller_fails']
+            rp = write_replay(prop, ob['id'], payload)
+            violations.append({'what': '%s refuted (helper fails %s on %s); its caller %s fails clause(s) %s on %s -> %s' % (
+                ob['id'], confirmed['failed'], json.dumps(confirmed['args_json'], ensure_ascii=False)[:80], cf['caller'],
+                cf['failed'], json.dumps(cf['args_json'], ensure_ascii=False)[:120], json.dumps(cf['observed'])[:120]),
+                'replay': rp, 'input': cf['args_json']})
+            return
+        drift_notes.append('%s refuted and reproduced on the helper (%s), but no caller (%s) fails its own executable contract '
+                           '(lifted witness + bounded native search, %s inputs): internal contract drift' % (
+                               ob['id'], json.dumps(confirmed['args_json'], ensure_ascii=False)[:80], ', '.join(callers),
+                               esc.get('tried')))
+        undecided.append({'function': qual, 'obligation': ob['id'],
+                          'reason': 'helper contract refuted and reproduced on the helper, but its callers keep their '
+                                    'executable contracts on every input tried (internal contract drift); decided by the bounded stand-in'})
+        return
     if confirmed is not None:
         payload['native_replay'] = confirmed
         rp = write_replay(prop, ob['id'], payload)
@@ -611,6 +653,38 @@ def handle_sat(prop, g, ob, ck, locked, known, violations, known_hits, undecided
     undecided.append({'function': qual, 'obligation': ob['id'],
                       'reason': 'refuted by the solver but not reproduced on the real code (spurious model or '
                                 'internal contract drift); decided by the bounded stand-in'})
+
+
+def escalate_to_callers(helper, callers, confirmed, tier):
+    """helper witness -> caller inputs (contracts.props.LIFT), then the caller's bounded native search."""
+    import contracts.props as P
+    tried = 0
+    for caller in callers:
+        lift = P.LIFT.get((helper, caller))
+        for raw in (lift(confirmed['args_json']) if lift else []):
+            tried += 1
+            rc, out, err, _ = run_subprocess([PY_VENV, '-m', 'pyvc.replay', 'check', caller, json.dumps(raw)], 60)
+            try:
+                r = json.loads(out)
+            except Exception:
+                continue
+            if r.get('admissible') and r.get('failed'):
+                return {'caller_fails': {'caller': caller, 'args_json': raw, 'failed': r['failed'], 'observed': r['observed'],
+                                         'how': 'helper witness lifted'}, 'tried': tried}
+        native = P.NATIVE.get(caller)
+        if native and 'domain' in native:
+            rc, out, err, _ = run_subprocess([PY_VENV, '-m', 'pyvc.replay', 'search', caller,
+                                              '20' if tier == 'quick' else '120'], 200)
+            try:
+                r = json.loads(out)
+            except Exception:
+                continue
+            tried += r.get('tried', 0)
+            if r.get('found'):
+                return {'caller_fails': {'caller': caller, 'args_json': dict(zip(list(native['domain']), r['raw_args'])),
+                                         'failed': r['failed'], 'observed': r['observed'],
+                                         'how': 'bounded native search (%d tried)' % r['tried']}, 'tried': tried}
+    return {'caller_fails': None, 'tried': tried}
 
 
 if __name__ == '__main__':
